@@ -96,4 +96,10 @@ def rlhp(payload):
                     ids = {id(p_) for g in groups for p_ in g["params"]}
                     if ids != {id(p_) for p_ in a.actor.parameters()}:
                         return {"status": "fail", "cases": cases, "detail": f"agent {i}: optimizer does not step the agent's current actor parameters"}
+    # several optimizers registered under one learning-rate name (TD3 critic_2_optimizer, MATD3, IPPO critics)
+    from replays import demos
+    r = demos.run({"name": "C02_demo_1", "budget_s": 230, "witness_key": "shared-lr-name"})
+    cases += 1
+    if r["status"] != "pass":
+        return dict(r, cases=cases)
     return {"status": "pass", "cases": cases}
